@@ -7,6 +7,8 @@ EXTENDS TextMatch, ReMatch, Cond, ArenaFile, Limits, FieldMut, Json, IOUtils, TL
 SH == INSTANCE SigHandler WITH Threads <- {1}, Scans <- 1, CountInsideIf <- FALSE, pc <- 0, left <- 0, mutex <- 0, usecount <- 0, installed <- FALSE, log <- << >>
 CQ == INSTANCE CliQueue WITH NFiles <- 1, Consumers <- {1}, Q <- 1, FinishTokens <- 1, NoMutex <- FALSE, ring <- 0, head <- 0, tail <- 0, used <- 0, unused <- 0,
                           qlock <- 0, pcP <- 0, todo <- << >>, pcC <- 0, got <- 0, scanned <- 0, overwritten <- FALSE
+AC == INSTANCE AhoCorasick WITH StrictBacktrack <- FALSE, NoFailureLists <- FALSE, BlindOptimise <- FALSE, Alphabet <- {1}, MaxLen <- 1, MaxAtoms <- 1,
+                             MaxInput <- 1, atomsV <- << >>, bufV <- << >>
 AL == INSTANCE ApiLifecycle WITH comp <- 0, rules <- 0, scanner <- 0, armed <- 0, history <- 0
 HR == INSTANCE HashRange WITH KeyWithAlg <- TRUE, KeyIsArgs <- TRUE, cache <- 0, last <- 0, ncalls <- 0
 
@@ -31,6 +33,7 @@ CaseOK(c) ==
     [] c.kind = "modscan" -> ModScanOK(c)
     [] c.kind = "hook" -> SH!HookTraceOK(c)
     [] c.kind = "queue" -> CQ!QueueTraceOK(c)
+    [] c.kind = "ac" -> AC!ACTraceOK(c)
     [] OTHER -> FALSE
 
 \* disagreements that carry the signature of a recorded known finding (decided from the case, spec side)
